@@ -1342,6 +1342,19 @@ func (s *BlockAttrsSpec) decode(content *hcl.BodyContent, blockLabels []blockLab
 		vals[name] = attrVal
 	}
 
+	// When the element type is (or contains) cty.DynamicPseudoType the
+	// converted values keep their own types, and cty.MapVal panics unless
+	// those are all the same.
+	if !cty.CanMapVal(vals) {
+		diags = append(diags, &hcl.Diagnostic{
+			Severity: hcl.DiagError,
+			Summary:  fmt.Sprintf("Inconsistent argument types in %s block", s.TypeName),
+			Detail:   "All of the arguments in this block must have the same type.",
+			Subject:  &block.DefRange,
+		})
+		return cty.UnknownVal(cty.Map(s.ElementType)), diags
+	}
+
 	return cty.MapVal(vals), diags
 }
 
